@@ -6,6 +6,7 @@ bad=0
 for d in seeded/*/; do
   id=$(basename $d); P=${id%-*}
   if [ $# -gt 0 ]; then m=0; for a in "$@"; do [[ $id == $a* ]] && m=1; done; [ $m = 1 ] || continue; fi
+  if grep -q neutralised_by_fix $d/meta.json; then echo "$id: skipped (neutralised by a later repair, see meta.json)"; continue; fi
   out=$(tools/try_seeded2.sh $P $d 2>&1)
   demo=$(echo "$out" | grep -o "demo clean rc=[0-9]* patched rc=[0-9]*")
   rc=$(echo "$out" | grep -o "check $P rc=[0-9]*")
